@@ -93,7 +93,7 @@ impl CipherState {
     /// Verification hook: append the private state of this cipherstate to `out`.
     #[cfg(feature = "verif-hooks")]
     pub(crate) fn verif_dump(&self, out: &mut crate::utils::VerifDump) {
-        out.extend_from_slice(&self.n.to_le_bytes());
+        out.extend_from_slice(&self.nonce().to_le_bytes());
         out.push(u8::from(self.has_key));
     }
 
